@@ -633,6 +633,24 @@ def check_C19(chk):
     chk.add_mc(r, "MC_Attrs MaxAdds=%d" % (4 if q else 5))
     r = mc("C19", "gen_attrs", "MC_Attrs.tla", dict(base, MaxAdds=3 if q else 4), inv + ["Gen"], case_file=cases)
     chk.models.append({"model": "MC_Attrs (generator) MaxAdds=%d" % (3 if q else 4), "behaviours": r["cases"]})
+    # any number of additions, arbitrary values: Apalache discharges the inductive invariant of the container abstracted
+    # to (position of the group of each kind, value per (kind, name)) with the history as ghost state
+    ad = os.path.join(SPEC, "apalache")
+    done, refuted = [], []
+    for label, args in [("init", ["--init=Init", "--inv=IndInv", "--length=0"]),
+                        ("step", ["--init=IndInit", "--inv=IndInv", "--length=1"]),
+                        ("safety", ["--init=IndInit", "--inv=Safety", "--length=0"])]:
+        w = apalache_check("C19", "attrs_" + label, ad, "AttrsInd.tla", args)
+        done.append({"obligation": label, "args": " ".join(args), "wall_s": round(w, 1)})
+    for label, args in [("deviation: a new group is put in front (step)", ["--init=IndInit", "--next=PrependNext", "--inv=IndInv", "--length=1"]),
+                        ("deviation: the first value of a name is kept (step)", ["--init=IndInit", "--next=KeepFirstNext", "--inv=IndInv", "--length=1"]),
+                        ("non-vacuity of IndInit", ["--init=IndInit", "--inv=NotLong", "--length=0"])]:
+        w = apalache_refute("C19", "attrs_refute", ad, "AttrsInd.tla", args)
+        refuted.append({"query": label, "args": " ".join(args), "wall_s": round(w, 1)})
+    chk.extra["apalache_inductive_invariant"] = {
+        "module": "spec/apalache/AttrsInd.tla", "discharged": done, "refuted_as_expected": refuted,
+        "statement": "after any number of add() calls with arbitrary values on an empty container: one group per kind used, in order of "
+                     "first use, each holding the most recent value per name"}
     wirecases = os.path.join(wd, "wirecases.ndjson")
     r2 = mc("C19", "mc_wire", "MC_Wire.tla", dict(WIRE_CONST, MaxTok=5 if q else 6), ["ParserReadsRFC", "GenOp"],
             constraint="Bound", case_file=wirecases)
